@@ -337,6 +337,19 @@ func (t *Terms) callTerm(v ssa.Value, c *ssa.CallCommon) string {
 			return r
 		}
 	}
+	// byte/rune forms of the strings search functions denote the same value as the string forms:
+	// strings.LastIndexByte(x, '.') == strings.LastIndex(x, "."), IndexByte/IndexRune likewise
+	switch name {
+	case "strings.LastIndexByte", "strings.IndexByte", "strings.IndexRune":
+		if len(c.Args) == 2 {
+			if k, ok := c.Args[1].(*ssa.Const); ok && k.Value != nil && k.Value.Kind() == constant.Int {
+				if n, ok := constant.Int64Val(k.Value); ok && n > 0 && n < 128 {
+					name = map[string]string{"strings.LastIndexByte": "strings.LastIndex", "strings.IndexByte": "strings.Index", "strings.IndexRune": "strings.Index"}[name]
+					args[1] = fmt.Sprintf("const:%q", string(rune(n)))
+				}
+			}
+		}
+	}
 	s := "call:" + name + "(" + strings.Join(args, ",") + ")"
 	if pureFuncs[name] {
 		return s
@@ -758,4 +771,17 @@ func (t *Terms) edgeAlternatives(from, to *ssa.BasicBlock) [][]Fact {
 		return nil
 	}
 	return t.condAlternatives(iff.Cond, to == from.Succs[0], 0)
+}
+
+// blockAlternatives: one fact set per way of entering b: for every predecessor p, the facts that hold in p together with
+// the facts of the edge p->b. A property that holds in every alternative holds in b (used where the guard of b is a
+// disjunction such as `len(a) == 0 || a[0] != '@'`, which leaves no single dominating fact).
+func (t *Terms) blockAlternatives(b *ssa.BasicBlock) [][]Fact {
+	var out [][]Fact
+	for _, p := range b.Preds {
+		fs := append([]Fact(nil), t.FactsAt(p)...)
+		fs = append(fs, t.edgeFactsOn(p, b)...)
+		out = append(out, fs)
+	}
+	return out
 }
